@@ -603,3 +603,45 @@ func codeSkipsOutdatedCancel() bool {
 	_ = w.Close()
 	return f3Probe.val
 }
+
+// stepToDataTrie releases parked goroutines (accounts goroutines first) until the storage loop is parked at the first
+// read of a data trie of some running job's root while no accounts goroutine is parked, i.e. the main trie has been
+// copied and the data tries are being copied.  Stops as well when nothing is parked.
+func (d *driver) stepToDataTrie() error {
+	dataRoots := map[string]bool{}
+	for _, j := range d.jobs {
+		if j.done {
+			continue
+		}
+		_, dts, err := reach(archiveView{d.s.db}, j.root)
+		if err != nil {
+			return err
+		}
+		for r := range dts {
+			dataRoots[r] = true
+		}
+	}
+	for i := 0; i < 10000; i++ {
+		ps := d.s.g.parked()
+		if len(ps) == 0 {
+			return nil
+		}
+		var g *parkedG
+		for _, p := range ps {
+			if p.kind != "get" {
+				g = p
+				break
+			}
+		}
+		if g == nil {
+			if l := d.parkedLoop(); l != nil && dataRoots[string(l.key)] {
+				return nil
+			}
+			g = ps[0]
+		}
+		if err := d.release(g); err != nil {
+			return err
+		}
+	}
+	return fmt.Errorf("stepToDataTrie: no end")
+}
